@@ -678,6 +678,32 @@ func runC04(c *Ctx) {
 			c.plyCaseEP(g, c.plyCfg(g), plyFormats, "c04.holds.encodings_agree", false)
 		}
 	}
+	// candidate findings on the unchanged tree, one fixed witness each under its own op name (expected false until the
+	// coordinator decides fix / known finding / outside the quantifier):
+	{
+		pos := []vector3.Float64{vector3.New(1., 2., 3.), vector3.New(4., 5., 6.), vector3.New(7., 8., 9.)}
+		wit := func(op string, m modeling.Mesh) {
+			w := plyWCfg{isDefault: true}
+			for _, f := range []ply.Format{ply.ASCII, ply.BinaryLittleEndian} {
+				data, err := w.write(m, f)
+				c.Emit("c04.write", w.tok(f)+" "+plyMeshTok(m), plyResBytes(data, err))
+				rs, _ := plyImplReadMesh(data)
+				c.Emit("c04.read", plyHx(data), rs)
+				c.Emit(op, w.tok(f)+" "+plyMeshTok(m)+" "+rs, "true")
+			}
+		}
+		// (a) a point cloud whose index buffer is not 0..n-1: PLY stores no indices for point clouds → 3 primitives come back for 2
+		wit("c04.holds.pointcloud_index_buffer_witness",
+			modeling.NewMesh(modeling.PointTopology, []int{2, 0}).SetFloat3Attribute(modeling.PositionAttribute, pos))
+		// (b) a user attribute whose name holds a blank: `property float my attr` — the reader rejects the file the writer wrote
+		wit("c04.holds.name_with_blank_witness",
+			modeling.NewMesh(modeling.PointTopology, []int{0, 1, 2}).SetFloat3Attribute(modeling.PositionAttribute, pos).
+				SetFloat1Attribute("my attr", []float64{10, 20, 30}))
+		// (c) a user scalar named like a recognised property: two `property float x` lines; Position.x silently becomes the scalar
+		wit("c04.holds.name_collision_witness",
+			modeling.NewMesh(modeling.PointTopology, []int{0, 1, 2}).SetFloat3Attribute(modeling.PositionAttribute, pos).
+				SetFloat1Attribute("x", []float64{10, 20, 30}))
+	}
 	for k := 0; k < c.N; k++ {
 		g := c.plyMesh(plyVcNice)
 		for r := 0; r < 2; r++ {
